@@ -134,8 +134,27 @@ class Sys:
             tuple(sorted(c.idx for c in cl)),
             tuple(sorted(d.idx for d in dv)),
             tuple(sorted((getattr(c, "idx", repr(c)), tuple(sorted((repr(k), str(p)) for k, p in pm.items()))) for c, pm in br.items())),
-            snap(v),
+            self._rsnap(v),
         )
+
+    def _rsnap(self, obj, depth=0):
+        """snapshot of any further router attributes (hidden state a refactoring may add: caches, counters ...)
+        with endpoints replaced by stable tokens and no object addresses"""
+        if obj is None or isinstance(obj, (bool, int, float, str, bytes)):
+            return obj
+        if any(obj is c for c in self.clients):
+            return ("client", obj.idx)
+        if any(obj is d for d in self.devices):
+            return ("device", obj.idx)
+        if isinstance(obj, dict):
+            return tuple(sorted(((repr(self._rsnap(k, depth + 1)), self._rsnap(v, depth + 1)) for k, v in obj.items()), key=repr))
+        if isinstance(obj, (list, tuple)):
+            return tuple(self._rsnap(x, depth + 1) for x in obj)
+        if isinstance(obj, (set, frozenset)):
+            return tuple(sorted((self._rsnap(x, depth + 1) for x in obj), key=repr))
+        if depth < 4 and hasattr(obj, "__dict__") and not isinstance(obj, type):
+            return (type(obj).__name__,) + tuple(sorted((k, self._rsnap(v, depth + 1)) for k, v in vars(obj).items()))
+        return type(obj).__name__
 
 
 class Model:
@@ -255,9 +274,14 @@ def explore(nclients, kinds, check, shard_idx=0, nshards=1):
         p.reverse()
         return p
 
+    depth_limit = 4 * nclients + 6  # the graph of the unchanged router has depth 3 * nclients + 3
     while fr:
         st = fr.popleft()
         path = path_of(st)
+        if len(path) > depth_limit:
+            # only reachable when hidden history-dependent state makes the graph unbounded (a counter, a log)
+            stats["capped"] = stats.get("capped", 0) + 1
+            continue
         sysm, model = build(path, nclients)
         if sysm.canon() != st:
             raise AssertionError("replay divergence at %r" % (path,))
